@@ -238,6 +238,8 @@ def run_ctl_batch(sc, binary, cases, tag, record=True):
     idx = []
     glue_terms = []
     gidx = []
+    big_cases = []
+    bidx = []
     for i, (c, r) in enumerate(zip(cases, results)):
         if r.get("panic"):
             errors[i] = [(0, 9, "panic: " + r["panic"])]
@@ -267,6 +269,11 @@ def run_ctl_batch(sc, binary, cases, tag, record=True):
         if bad:
             errors[i] = [bad]
             continue
+        if c.get("quiet"):
+            # large history dumped after its last operation only: linear-time table (check_ctl_case_big)
+            bidx.append(i)
+            big_cases.append(cpair(clist(steps), clist([cN(x) for x in sorted(univ)])))
+            continue
         idx.append(i)
         coq_cases.append(cpair(clist(steps), clist([cN(x) for x in sorted(univ)])))
         g = glue_case_to_coq(c, r, pool)
@@ -280,7 +287,9 @@ def run_ctl_batch(sc, binary, cases, tag, record=True):
             "From Dae Require Import C10_Ctl_Model.\n"
             "Definition gcases : list ctl_case := [\n" + ";\n".join(glue_terms) + "\n].\n"
             "Definition G := Eval vm_compute in map check_ctl_glue gcases.\nPrint G.\n"
-            "Definition GS := Eval vm_compute in map ctl_signature gcases.\nPrint GS.\n")
+            "Definition GS := Eval vm_compute in map ctl_signature gcases.\nPrint GS.\n"
+            "Definition bigcases : list (list (list (N * cache_entry) * list (N * N)) * list N) := [\n" + ";\n".join(big_cases) + "\n].\n"
+            "Definition B := Eval vm_compute in map check_ctl_case_big bigcases.\nPrint B.\n")
     ok, outtxt = vlib.coq_eval("C10_ctl_%s" % tag, text)
     if not ok:
         return None, "coq evaluation failed: " + outtxt[-3000:]
@@ -290,6 +299,12 @@ def run_ctl_batch(sc, binary, cases, tag, record=True):
     if len(per) != len(idx):
         return None, "cannot parse coq output (%d vs %d): %s" % (len(per), len(idx), body[:300])
     for i, p in zip(idx, per):
+        errors[i] = [(int(x), 2, "") for x in p.split(";") if x]
+    mb = re.search(r"B\s*=\s*(.*?)\n\s*:\s*list", outtxt, re.S)
+    perb = re.findall(r"\[([\d;]*)\]", re.sub(r"\s+", "", mb.group(1))[1:-1]) if mb else None
+    if perb is None or len(perb) != len(bidx):
+        return None, "cannot parse coq output of the large-history check: " + outtxt[-500:]
+    for i, p in zip(bidx, perb):
         errors[i] = [(int(x), 2, "") for x in p.split(";") if x]
     # controller glue: tracker calls / cache contents / kernel map against the model, model against spec
     g = parse_pair_lists(outtxt, "G", len(gidx))
